@@ -33,6 +33,8 @@ class CapLogger:
     def critical(self, m, *a, **k): self._log("critical", m)
     def log(self, lvl, m, *a, **k): self._log(str(lvl), m)
     def isEnabledFor(self, lvl): return True
+    level = 20
+    def setLevel(self, lvl): self.level = lvl
     def reset(self): self.records = []
 
 
@@ -158,7 +160,7 @@ def sym_unquote_to_bytes(s):
 # ------------------------------------------------------------------------------ preparation
 _prepared = {}
 MODS = ("utilities", "rfc7230", "buffers", "receiver", "parser", "task", "proxy_headers", "wasyncore", "trigger",
-        "adjustments", "channel", "server")
+        "adjustments", "channel", "server", "runner")
 
 
 def load_instrumented(path, name):
